@@ -7,7 +7,8 @@ from ..contexts import EXTRA_TOKENS
 
 ID = 'C19'
 LEVEL = 'exploration'
-RULE = ('trees from strict parses of Hypothesis grammar documents (default and every-argument-type '
+RULE = ('(every tree is visited three times: recorder returning unique tokens, recorder returning '
+        'falsy values 0/\'\'/None/()/False/0.0, visitor reimplementing only visit()) trees from strict parses of Hypothesis grammar documents (default and every-argument-type '
         'contexts: every node kind, present and absent arguments, list-valued arguments, empty '
         'bodies, nesting) and from tolerant parses of exhaustive / random token soups (None '
         'arguments objects and placeholders). A recording LatexNodesVisitor subclass overrides '
